@@ -220,20 +220,16 @@ func VerifyFunc(p *Program, ss *Sorts, reg *SpecReg, fc *FuncContract) (res *Fun
 	fv.cover(st, "cover-entry", fd.Pos(), "requires and entry assumptions are satisfiable")
 	nret := 0
 	ctl := &Ctl{brk: map[string]Kont{}, cont: map[string]Kont{}}
+	var afterDefers func(s2 *State, vals []Term)
 	ctl.ret = func(s2 *State, vals []Term) {
 		nret++
-		// deferred calls, LIFO
-		for j := len(s2.defers) - 1; j >= 0; j-- {
-			d := s2.defers[j]
-			if lit, ok := stripParens(d.call.Fun).(*ast.FuncLit); ok {
-				fv.inlineLit(s2, lit, d.call.Args, d.call.Pos())
-			} else if fv.isBuiltinCall(d.call, "close") {
-				fv.note("deferred close dropped")
-			} else {
-				fv.evalCall(s2, d.call)
-			}
-		}
+		// deferred calls, LIFO; a deferred function literal may branch (defer func() { if !done { rollback } }()): each
+		// of its exit paths continues with the remaining deferred calls
+		defers := s2.defers
 		s2.defers = nil
+		fv.runDefers(s2, defers, len(defers)-1, func(s3 *State) { afterDefers(s3, vals) })
+	}
+	afterDefers = func(s2 *State, vals []Term) {
 		n0 := len(fv.obls)
 		pc0 := s2.pc[:len(s2.pc):len(s2.pc)]
 		var goals []string
@@ -453,4 +449,58 @@ func (fv *FV) verifyLitBody(res *FuncResult, fd *ast.FuncDecl, lit *ast.FuncLit)
 	}
 	fv.execBlock(st, lit.Body.List, ctl, func(s2 *State) { ctl.ret(s2, nil) })
 	return res
+}
+
+
+// runDefers executes deferred calls j, j-1, ..., 0 on st and then continues with k. Function literals are executed in
+// continuation-passing style so that every exit path of the literal is followed.
+func (fv *FV) runDefers(st *State, defers []deferred, j int, k func(*State)) {
+	if j < 0 {
+		k(st)
+		return
+	}
+	d := defers[j]
+	next := func(s2 *State) { fv.runDefers(s2, defers, j-1, k) }
+	if lit, ok := stripParens(d.call.Fun).(*ast.FuncLit); ok {
+		sig := fv.info.TypeOf(lit).(*types.Signature)
+		var args []Term
+		for _, a := range d.call.Args {
+			args = append(args, fv.evalExpr(st, a))
+		}
+		i := 0
+		for _, f := range lit.Type.Params.List {
+			for _, n := range f.Names {
+				if obj := fv.info.Defs[n]; obj != nil && i < len(args) {
+					st.vars[obj] = args[i]
+				}
+				i++
+			}
+		}
+		if fv.inlineDepth > 3 {
+			fv.abort(d.call.Pos(), "function literal nesting too deep")
+		}
+		fv.inlineDepth++
+		saveSig, saveRes := fv.curSig, fv.curResObjs
+		fv.curSig, fv.curResObjs = sig, nil
+		lctl := &Ctl{brk: map[string]Kont{}, cont: map[string]Kont{}}
+		restore := func(s2 *State) {
+			// leaving the literal: back to the enclosing function's signature for the remaining defers / postconditions
+			fv.curSig, fv.curResObjs = saveSig, saveRes
+			fv.inlineDepth--
+			next(s2)
+			fv.inlineDepth++
+			fv.curSig, fv.curResObjs = sig, nil
+		}
+		lctl.ret = func(s2 *State, _ []Term) { restore(s2) }
+		fv.execBlock(st, lit.Body.List, lctl, restore)
+		fv.curSig, fv.curResObjs = saveSig, saveRes
+		fv.inlineDepth--
+		return
+	}
+	if fv.isBuiltinCall(d.call, "close") {
+		fv.note("deferred close dropped")
+	} else {
+		fv.evalCall(st, d.call)
+	}
+	next(st)
 }
